@@ -46,6 +46,8 @@ def make_model(seed, tier):
     mod = g.module()
     if r.random() < 0.4:
         mod = add_namesake(mod, r)
+    if r.random() < 0.4:
+        mod = add_prefix_sibling(mod, r)
     return mod
 
 
@@ -64,6 +66,31 @@ def add_namesake(mod, r):
     if path:
         return S.Module(mod.items + (twin,)) if not any(it.k == 'Class' and it.name == c.name for it in mod.items) else mod
     return S.Module(mod.items + (S.Namespace('twin%d' % r.randint(0, 99), (twin,)),))
+
+
+def add_prefix_sibling(mod, r):
+    """next to a plain class `Pose` a class `PoseGraph` (and `Pos`): the name of one is a prefix of the other's"""
+    def rec(items):
+        items = list(items)
+        plain = [i for i, it in enumerate(items) if it.k == 'Class' and not it.template and not it.virtual and
+                 not any(m.k == 'Enum' for m in it.members)]
+        if plain and r.random() < 0.7:
+            i = r.choice(plain)
+            c = items[i]
+            for nm in (c.name + r.choice(['Graph', '2', 'Ext', 'd']), c.name[:-1] if len(c.name) > 2 else c.name + 'x'):
+                if not any(getattr(it, 'name', None) == nm for it in items):
+                    mem = tuple(S.Ctor(nm, m.args, m.template) if m.k == 'Ctor' else m for m in c.members
+                                if m.k in ('Ctor', 'Method', 'Static', 'Prop'))[:3]
+                    items.insert(r.randint(0, len(items)), S.Class(nm, mem, None, False, None))
+            return tuple(items), True
+        for j, it in enumerate(items):
+            if it.k == 'Namespace':
+                sub, done = rec(it.items)
+                if done:
+                    items[j] = S.Namespace(it.name, sub)
+                    return tuple(items), True
+        return tuple(items), False
+    return S.Module(rec(mod.items)[0])
 
 
 def candidates(mod):
